@@ -157,14 +157,15 @@ EvTighten(e) ==
      \cup PFail("ncomb", \A i \in DOMAIN rows : e.ncomb[i] = (IF e.wide THEN NCombFormula(rows[i], cols) ELSE NComb(rows[i], cols)))
 
 \* C19
+\* points in any number of dimensions: a vector is a point, a matrix a group of points, every further dimension a stack
+RECURSIVE SatN(_, _, _), SepN(_, _, _), RowSepN(_, _, _)
+SatN(rows, T, nd) == IF nd <= 1 THEN Sat1(rows, T) ELSE [ g \in DOMAIN T |-> SatN(rows, T[g], nd - 1) ]
+SepN(rows, T, nd) == IF nd <= 1 THEN Sep1(rows, T) ELSE [ g \in DOMAIN T |-> SepN(rows, T[g], nd - 1) ]
+RowSepN(rows, T, nd) == IF nd <= 1 THEN RowSep1(rows, T) ELSE IF nd = 2 THEN RowSep2(rows, T) ELSE [ g \in DOMAIN T |-> RowSepN(rows, T[g], nd - 1) ]
 EvClassify(e) ==
   LET rows == e.rows IN
-  IF e.ndim = 1 THEN PFail("sat_value", e.sat = Sat1(rows, e.points)) \cup PFail("sep_value", e.sep = Sep1(rows, e.points))
-                     \cup PFail("rowsep_value", e.rowsep = RowSep1(rows, e.points))
-  ELSE IF e.ndim = 2 THEN PFail("sat_value", e.sat = Sat2(rows, e.points)) \cup PFail("sep_value", e.sep = Sep2(rows, e.points))
-                     \cup PFail("rowsep_value", e.rowsep = RowSep2(rows, e.points))
-  ELSE PFail("sat_value", e.sat = Sat3(rows, e.points)) \cup PFail("sep_value", e.sep = Sep3(rows, e.points))
-       \cup PFail("rowsep_value", e.rowsep = RowSep3(rows, e.points))
+  PFail("sat_value", e.sat = SatN(rows, e.points, e.ndim)) \cup PFail("sep_value", e.sep = SepN(rows, e.points, e.ndim))
+  \cup PFail("rowsep_value", e.rowsep = RowSepN(rows, e.points, e.ndim))
 
 (* ---- C20: id / position bridges ------------------------------------------------------ *)
 \* vars : Seq([id, lo, hi]); d : id -> value pairs; default kind: "lower" (integer dtype), "nan" (float dtype), "fn" (callable, value given per id)
